@@ -66,6 +66,14 @@ def host_circuit(rng, n_inputs=None, max_gates=8):
              'outputs': [], 'blocks': []}
         return realize(j)
     j, _ = gen.gen_circuit(rng, max_inputs=n_inputs, min_inputs=n_inputs, max_gates=max_gates, n_outputs=rng.randint(0, 2), max_arity=3)
+    if rng.random() < 0.3:
+        # host gates that carry names the generators use internally (sentinels, placeholders, generated-looking labels)
+        special = ['inf_label', 'nan_label', '_PLACEHOLDER_STR_', 'new_' + '0' * 32, 'zero', 'PLACEHOLDER', 'inf', 'tmp_0']
+        labels = [g[0] for g in j['gates']]
+        ren = dict(zip(rng.sample(labels, min(len(labels), rng.randint(1, 3))), rng.sample(special, 3)))
+        f = lambda l: ren.get(l, l)
+        j = {'gates': [[f(g[0]), g[1], [f(o) for o in g[2]]] for g in j['gates']], 'inputs': [f(x) for x in j['inputs']],
+             'outputs': [f(x) for x in j['outputs']], 'blocks': []}
     return realize(j)
 
 
